@@ -2,10 +2,13 @@ package encx
 
 import (
 	"fmt"
+	"go.uber.org/zap"
 	"hash/fnv"
+	"math"
 	"strings"
 	"sync"
 	"sync/atomic"
+	"time"
 
 	"go.uber.org/zap/zapcore"
 	"verif/harness/internal/ev"
@@ -439,4 +442,44 @@ func pathShape(f string) string {
 		}
 	}
 	return s
+}
+
+// Durations runs a sweep of durations (every whole millisecond of +-maxMs and
+// its +-1ns neighbours, plus magnitudes up to the int64 range) as a field and
+// as array elements under every built-in duration encoder: arithmetic slips of
+// an encoder show only for particular values.
+func (d *Driver) Durations(maxMs int) {
+	var vals []time.Duration
+	for k := -maxMs; k <= maxMs; k++ {
+		ms := time.Duration(k) * time.Millisecond
+		vals = append(vals, ms, ms-1, ms+1)
+	}
+	for _, v := range []time.Duration{math.MaxInt64, math.MinInt64, math.MaxInt64 / 1000 * 1000, 90 * time.Minute, -36 * time.Hour, 999999999, 1000000001} {
+		vals = append(vals, v)
+	}
+	encs := []string{"seconds", "millis", "nanos", "string"}
+	par.For(len(encs), func(ei int) {
+		l := d.local("durations")
+		c := DefaultCfg()
+		c.DurEnc = encs[ei]
+		enc := zapcore.NewJSONEncoder(c.EncoderConfig())
+		e := DefaultEnt()
+		for i := 0; i+2 < len(vals); i += 3 {
+			v0, v1, v2 := vals[i], vals[i+1], vals[i+2]
+			run1 := func(name string, mk func(k string) zapcore.Field, want func(k string, r Ref) []jsonx.Member) {
+				p := Placement{Call: []*Spec{leaf(name, mk, want)}}
+				l.one(c, enc, e, p, false, func(kind, msg string) string { return fmt.Sprintf("durations:%s:%s:%s", kind, encs[ei], name) }, func() string {
+					return fmt.Sprintf("%s with the %s duration encoder", name, encs[ei])
+				})
+			}
+			for _, v := range []time.Duration{v0, v1, v2} {
+				v := v
+				run1(fmt.Sprintf("zap.Duration(%d ns)", int64(v)), func(k string) zapcore.Field { return zap.Duration(k, v) }, func(k string, r Ref) []jsonx.Member { return one(k, DurNode(v, r)) })
+			}
+			run1(fmt.Sprintf("zap.Durations(%d,%d,%d ns)", int64(v0), int64(v1), int64(v2)), func(k string) zapcore.Field { return zap.Durations(k, []time.Duration{v0, v1, v2}) }, func(k string, r Ref) []jsonx.Member {
+				return one(k, jsonx.A(DurNode(v0, r), DurNode(v1, r), DurNode(v2, r)))
+			})
+		}
+		l.done()
+	})
 }
